@@ -3,7 +3,7 @@ from .. import rotcheck
 
 LEVEL = "exploration"
 PROFILE = {"L_choices": [1, 2, 7, 20, 64, 1000, 16384, 65536], "N_choices": [-1, 0, 2, 3, 5, 12], "p_day": 0.05, "p_restart": 0.07,
-           "p_foreign": 0.0, "autoobs_choices": [1, 1, 2]}
+           "p_foreign": 0.0, "autoobs_choices": [1, 1, 2], "marathon_p": 0.012}
 
 
 def run(ctx):
